@@ -370,16 +370,20 @@ func (n *Tree[V]) findNode(path string, captures []string, matcher LookupMatcher
 			childPathLen := len(child.path)
 
 			if pathLen >= childPathLen && child.path == path[:childPathLen] {
+				var tmp []string
+
 				nextPath := path[childPathLen:]
-				found, idx, captures, backtrack = child.findNode(nextPath, captures, matcher)
+
+				// the values captured so far must not be replaced by the result of an unsuccessful
+				// lookup. These are still required if the lookup continues with a wildcard
+				found, idx, tmp, backtrack = child.findNode(nextPath, captures, matcher)
+				if found != nil || !backtrack {
+					return found, idx, tmp, backtrack
+				}
 			}
 
 			break
 		}
-	}
-
-	if found != nil || !backtrack {
-		return found, idx, captures, backtrack
 	}
 
 	if n.wildcardChild != nil { //nolint:nestif
